@@ -111,7 +111,7 @@ func vfRunRequest(ep int, o vfReqOpts) *vfReqResult {
 		// GetInbox is served by the FederatingProtocol: only meaningful on a federating actor
 		vfAssume(res.fed, "GetInbox requires the federating protocol side (an actor without it has no s2s delegate)")
 	}
-	w.authMode = vfChoose("auth", 3)
+	w.authMode = vfChoose("auth", 4)
 	w.needBlk = ep == vfEPPostInbox
 	if w.needBlk {
 		w.blockMode = vfChoose("block", 3)
